@@ -17,7 +17,8 @@ CFG = dict(
     rule="histories of 10-37 datastore updates over 4 profiles, 4 policies, 3 tiers, 3 workload + 2 host endpoints, fed through "
          "the real ValidationFilter into the real ActiveRulesCalculator (3 of 4 cases: callbacks compared message for message) or "
          "into the whole real calculation graph + EventSequencer (every 4th case: proto.ActiveProfileUpdate/Remove compared as "
-         "the dataplane's profile view after every update); values are valid or made invalid in one of ~20 ways; every 10th case "
+         "the dataplane's profile view after every update); every 5th case chains Typha's own ValidationFilter in front of "
+         "Felix's, as in a Typha deployment; values are valid or made invalid in one of ~20 ways; every 10th case "
          "is the unknown-rule-action stream; "
          "non-trivial = the deny stand-in was emitted for a referenced missing profile AND the history contains a late creation, "
          "a delete while referenced, or an invalid version written over a valid one; distinct by update sequence",
